@@ -150,7 +150,7 @@ pub fn lossless_picture(kind: Kind, raw: i128, choices: &[u32]) -> (Vec<CTok>, V
     if ch.flag(1, 8) && !kind.is_interval() {
         out.insert(0, (Tok::Blank(1 + ch.pick(3)), 0));
     }
-    (gen::repair(out, b'/'), tags)
+    (gen::fit(gen::repair(out, b'/'), MAX_TOKENS), tags)
 }
 
 fn push_fraction(v: &mut Vec<Tok>, usec: u32, ch: &mut Ch) {
@@ -319,6 +319,11 @@ pub fn run(ctx: &Ctx) -> (Stats, Report) {
             |(raw, choices): &(i128, Vec<u32>), st: &mut Stats| {
                 let (toks, tags) = lossless_picture(kind, *raw, choices);
                 let pic = gen::spell_all(&toks);
+                if tokenize(&pic).is_none() {
+                    // a picture the reference rejects is a generator bug, never a library violation
+                    st.class("generator-produced-invalid-picture-skipped");
+                    return Ok(());
+                }
                 st.evaluations += 1;
                 check_roundtrip(kind, *raw, &pic)?;
                 for t in &tags {
